@@ -253,7 +253,7 @@ PROPS['C17'] = {
         'the `schema` library (its combinators as used by schemas.py are re-implemented in Model/Config.lean) and inspect.signature',
         'PyYAML is not installed in this sandbox: files are loaded with the harness YAML-subset loader (harness/miniyaml.py), which is therefore part of the trusted base for this property',
         'custom components (module:name, examples/coin_env.yaml) are opaque to the model; coin_env is exercised by the oracle only',
-        'FunctionRegistry.register is modelled by hand (Model/Registry.lean: signature check, name clash, append); the real registries are compared with the outcome classes of that model (refused -> same callables under the same names, accepted -> found under exactly its name) by harness/regprobe.py in a subprocess, not driven through the line protocol',
+        'FunctionRegistry.register is modelled by hand (Model/Registry.lean: signature check, name clash, append); harness/regprobe.py (subprocess) makes refused and accepted registrations on the six real registries and runs the same sequences through the model with `lake env lean` (exception kind per attempt, final name list); which exception a malformed signature gets is not modelled',
     ],
     'assumptions': ['behavioural equality with the hand-assembled environment is decided by running the real factory-built environment, the hand-assembled one and the model on the same histories'],
 }
